@@ -64,7 +64,13 @@ class Gen:
     task pause/resume may happen while the subsystem on top is "task body"
     (the only way the mux0 selection can go out of date)."""
 
-    def __init__(self, r, model, mt, consts, ncpus, nthreads, nprocs, steps, stale, res=None):
+    def __init__(self, r, model, mt, consts, ncpus, nthreads, nprocs, steps, stale, res=None, split=0):
+        # split > 0: two looms; CPUs 0..split-1 belong to loom "node0" (processes with an even number), CPUs
+        # split..ncpus-1 to loom "node1" (odd processes).  CPU numbers in the model lines stay global (the order
+        # of the physical CPUs in the breakdown); OHx / OAs carry the loom-local index.
+        if not (0 < split < ncpus and nprocs >= 2):
+            split = 0
+        self.split = split
         self.r, self.model, self.mt = r, model, mt
         self.BODY, self.UNK, self.PROG = consts
         self.REST = self.PROG + 1
@@ -76,7 +82,9 @@ class Gen:
             th = Th(i, 1000 + i, i % nprocs)
             th.idle = self.PROG
             req = {"ovni": "1.1.0", model: mt["version"]}
-            th.stream = Stream(tid=th.tid, pid=10 + th.proc, cpus=[(c, c) for c in range(ncpus)],
+            lo, hi = self.loom_range(th.proc)
+            th.stream = Stream(loom="node%d" % self.loom_of(th.proc), tid=th.tid, pid=10 + th.proc,
+                               cpus=[(c, c) for c in range(hi - lo)],
                                require=req, app_id=1 + th.proc)
             if model == "nosv":
                 th.stream.meta["nosv"] = {"can_breakdown": True}
@@ -89,6 +97,14 @@ class Gen:
         self.hist = []       # (clock, tid, mcv)
         self.evlog = []      # replayable event lines
         self.kinds = {}
+
+    def loom_of(self, proc):
+        return proc % 2 if self.split else 0
+
+    def loom_range(self, proc):
+        if not self.split:
+            return 0, self.ncpus
+        return (0, self.split) if proc % 2 == 0 else (self.split, self.ncpus)
 
     # ---- emission -----------------------------------------------------
     def tick(self):
@@ -137,19 +153,20 @@ class Gen:
         self.lines.append((clk, "bd set " + " ".join(f"{th.cpu} {c} {m[c]}" for c in chans)))
 
     # ---- thread life cycle ----------------------------------------------
-    def free_cpus(self):
-        return [c for c in range(self.ncpus) if self.running[c] is None]
+    def free_cpus(self, th=None):
+        lo, hi = self.loom_range(th.proc) if th is not None else (0, self.ncpus)
+        return [c for c in range(lo, hi) if self.running[c] is None]
 
     def act_thread(self, th):
         r = self.r
         st = th.state
         if st == "new":
-            fc = self.free_cpus()
+            fc = self.free_cpus(th)
             if not fc:
                 return False
             c = r.choice(fc)
             th.cpu = c
-            clk = self.ev(th, "OHx", i32(c, -1) + u64(0))
+            clk = self.ev(th, "OHx", i32(c - self.loom_range(th.proc)[0], -1) + u64(0))
             th.state = "run"
             self.running[c] = th.idx
             self.sel_change(clk, [c])
@@ -169,11 +186,11 @@ class Gen:
                 self.sel_change(clk, [th.cpu])
                 return True
             if k < 0.11:
-                fc = self.free_cpus()
+                fc = self.free_cpus(th)
                 if fc:
                     c = r.choice(fc)
                     old = th.cpu
-                    clk = self.ev(th, "OAs", i32(c))
+                    clk = self.ev(th, "OAs", i32(c - self.loom_range(th.proc)[0]))
                     self.running[old] = None
                     self.running[c] = th.idx
                     th.cpu = c
@@ -369,12 +386,12 @@ class Gen:
         # a thread that never started still needs a valid (empty-bodied) stream
         for th in self.threads:
             if th.state == "new":
-                fc = self.free_cpus()
+                fc = self.free_cpus(th)
                 c = fc[0] if fc else 0
                 if not fc:
                     continue
                 th.cpu = c
-                clk = self.ev(th, "OHx", i32(c, -1) + u64(0))
+                clk = self.ev(th, "OHx", i32(c - self.loom_range(th.proc)[0], -1) + u64(0))
                 self.running[c] = th.idx
                 self.sel_change(clk, [c])
                 clk = self.ev(th, "OHe")
@@ -387,8 +404,8 @@ class Gen:
 class Case:
     """A generated (or replayed) trace plus the model input derived from it."""
 
-    def __init__(self, model, ncpus, threads, evlog, lines, label=""):
-        self.model, self.ncpus = model, ncpus
+    def __init__(self, model, ncpus, threads, evlog, lines, label="", split=0):
+        self.model, self.ncpus, self.split = model, ncpus, split
         self.threads = threads      # [(tid, pid, app_id, can_breakdown or None)]
         self.evlog = evlog          # "ev tid clock mcvhex payloadhex jumbohex"
         self.lines = lines          # [(clock, "bd set ...")]
@@ -402,10 +419,10 @@ class Case:
                 continue
             cb = th.stream.meta.get("nosv", {}).get("can_breakdown") if g.model == "nosv" else None
             ths.append((th.tid, 10 + th.proc, 1 + th.proc, cb))
-        return Case(g.model, g.ncpus, ths, list(g.evlog), list(g.lines), label)
+        return Case(g.model, g.ncpus, ths, list(g.evlog), list(g.lines), label, split=g.split)
 
     def text(self):
-        out = ["e2e %s %d" % (self.model, self.ncpus)]
+        out = ["e2e %s %d" % (self.model, self.ncpus) + (" %d" % self.split if self.split else "")]
         for (tid, pid, app, cb) in self.threads:
             out.append("th %d %d %d %s" % (tid, pid, app, "-" if cb is None else int(cb)))
         out += self.evlog
@@ -415,12 +432,14 @@ class Case:
     @staticmethod
     def parse(txt):
         model, ncpus, ths, evs, lines = None, 0, [], [], []
+        split = 0
         for ln in txt.split("\n"):
             t = ln.split()
             if not t or t[0].startswith("#"):
                 continue
             if t[0] == "e2e":
                 model, ncpus = t[1], int(t[2])
+                split = int(t[3]) if len(t) > 3 else 0
             elif t[0] == "th":
                 ths.append((int(t[1]), int(t[2]), int(t[3]), None if t[4] == "-" else bool(int(t[4]))))
             elif t[0] == "ev":
@@ -429,12 +448,15 @@ class Case:
                 lines.append((int(t[1]), " ".join(t[2:])))
         if model is None:
             return None
-        return Case(model, ncpus, ths, evs, lines, "replay")
+        return Case(model, ncpus, ths, evs, lines, "replay", split=split)
 
     def streams(self, version):
         ss = {}
         for (tid, pid, app, cb) in self.threads:
-            s = Stream(tid=tid, pid=pid, cpus=[(c, c) for c in range(self.ncpus)],
+            # processes are numbered 10 + proc; with a split, even processes live in node0, odd ones in node1
+            odd = self.split and (pid - 10) % 2 == 1
+            nloc = (self.ncpus - self.split if odd else self.split) if self.split else self.ncpus
+            s = Stream(loom="node1" if odd else "node0", tid=tid, pid=pid, cpus=[(c, c) for c in range(nloc)],
                        require={"ovni": "1.1.0", self.model: version}, app_id=app)
             if cb is not None:
                 s.meta["nosv"] = {"can_breakdown": cb}
